@@ -1422,3 +1422,48 @@ package state
 //@ loop 1 invariant[registered-so-far] 0 <= range1_idx && forall j int :: 0 <= j && j < range1_idx ==> T_peering_secret_uuids(uuids[j]) != nil
 //@ loop 1 invariant[no-secret-id-released] forall k string :: old(T_peering_secret_uuids(k)) != nil ==> T_peering_secret_uuids(k) != nil
 //@ loop 1 invariant[record-stored] T_peering_secrets(p.PeerID) == p && forall k string :: strLower(k) != strLower(p.PeerID) ==> T_peering_secrets(k) == old(T_peering_secrets(k))
+
+//@ file catalog.go
+// ---- C06: the index a per-service catalog/health query reports. maxIndexForService answers with the "last service
+// extinction" index when it is told that the service has NO instance; that index is not raised when an instance
+// changes, so telling it "no instance" while one exists makes a changed result carry an unchanged (or lower) index.
+// The flag is therefore a PRECONDITION (assumed contract, checked at every call site under contract): whenever an
+// instance of the service exists in the queried peer, the caller must say so - regardless of any result filter.
+//@ pure serviceHasInstance(name string, peer string) bool = exists k string :: T_services(k) != nil && strLower(T_services(k).PeerName) == strLower(peer) && strLower(T_services(k).ServiceName) == strLower(name)
+//@ func maxIndexForService
+//@ trusted
+//@ results idx
+//@ requires[existing-service-is-reported-as-existing] serviceHasInstance(serviceName, peerName) ==> serviceExists
+//@ modifies nothing
+//@ func serviceTagsFilter
+//@ trusted
+//@ opt pure yes
+//@ results drop
+//@ func parseServiceNodes
+//@ trusted
+//@ results out, err
+//@ modifies nothing
+//@ func parseCheckServiceNodes
+//@ trusted
+//@ results oidx, out, oerr
+//@ modifies nothing
+
+//@ func Store.ServiceTagNodes
+//@ props C06
+//@ results idx, nodes, err
+//@ requires s != nil
+//@ ensures[reads-only] forall k string :: T_services(k) == old(T_services(k))
+//@ loop 1 invariant[pos] 0 <= itPos(services) && itPos(services) <= itLen(services)
+//@ loop 1 invariant[cursor] (service != nil ==> itPos(services) >= 1 && service == itElem(services, itPos(services)-1)) && (service == nil ==> itPos(services) == itLen(services))
+//@ loop 1 invariant[exists-flag-follows-the-unfiltered-instances] serviceExists <==> ite(service != nil, itPos(services) - 1, itPos(services)) > 0
+//@ loop 1 invariant[reads-only] forall k string :: T_services(k) == old(T_services(k))
+
+//@ func Store.CheckServiceTagNodes
+//@ props C06
+//@ results idx, nodes, err
+//@ requires s != nil
+//@ ensures[reads-only] forall k string :: T_services(k) == old(T_services(k))
+//@ loop 1 invariant[pos] 0 <= itPos(iter) && itPos(iter) <= itLen(iter)
+//@ loop 1 invariant[cursor] (service != nil ==> itPos(iter) >= 1 && service == itElem(iter, itPos(iter)-1)) && (service == nil ==> itPos(iter) == itLen(iter))
+//@ loop 1 invariant[exists-flag-follows-the-unfiltered-instances] serviceExists <==> ite(service != nil, itPos(iter) - 1, itPos(iter)) > 0
+//@ loop 1 invariant[reads-only] forall k string :: T_services(k) == old(T_services(k))
